@@ -547,7 +547,7 @@ def run_e2e(ctx, stats, pairs, pair_lines, pair_cmp, impls, impl_lines, specs, m
     from vlib import e2e
     quick = ctx.tier == "quick"
     want_pairs = 60 if quick else 400
-    want_impl = 24 if quick else 200
+    want_impl = 12 if quick else 200
     by_idx = {pl[0]: pl for pl in pair_lines}
     chosen = []
     # corpus first (incl. every known-finding witness), then a spread over the generator's labels
@@ -562,6 +562,8 @@ def run_e2e(ctx, stats, pairs, pair_lines, pair_cmp, impls, impl_lines, specs, m
             stats["e2e:skipped-struct-embedding-generic-instance"] = stats.get("e2e:skipped-struct-embedding-generic-instance", 0) + 1
             continue
         is_corpus = label.startswith("corpus:") or label.startswith("local-")
+        if quick and label.startswith("local-") and idx % 3 != 0:
+            continue
         key = label
         if not is_corpus:
             if seen_labels.get(key, 0) >= (1 if quick else 8) or len(chosen) >= want_pairs:
